@@ -66,6 +66,8 @@ class C06(InvProp):
         e1.add_faults(rng, scn, p_pause=0.5, p_rescue=0.1)
         if rng.chance(0.15):
             scn['edits'] = e1.gen_edits(rng, scn)
+        if scn.get('edits') and rng.chance(0.35):
+            scn['edits'].append({'kind': 'short_first_run'})     # run one hydraulic step, reset, then the full run
         return scn
 
     def oracle(self, scn, out, c):
